@@ -466,6 +466,15 @@ class GenA:
             op["symbol"] = symbol
         if fault == "dup_name":
             op["name"] = name
+        if fault == "none" and self.rng.random() < 0.3:
+            # a declaration that repeats one identifier the unit already has and adds a new
+            # one of the other kind: the new one must be bound all the same
+            own_n = sorted(n for n, v in self.model.unit_names.items() if v == nf)
+            own_s = sorted(x for x, v in self.model.unit_symbols.items() if x and v == nf)
+            if own_n and (not own_s or self.rng.random() < 0.5):
+                op["name"], op["symbol"] = self.rng.choice(own_n), symbol
+            elif own_s:
+                op["name"], op["symbol"] = name, self.rng.choice(own_s)
         if fault != "none":
             op["fault"] = fault
             self.emit(op)
@@ -511,6 +520,17 @@ class GenA:
 
     def g_decl_dim(self):
         rng = self.rng
+        if rng.random() < 0.25:
+            # a refused derive of a dimension that already has a name: its name stays bound
+            named = sorted(self.model.dims)
+            own = rng.choice(named)
+            others = [n for n in named if self.model.dims[n] != self.model.dims[own]]
+            if others:
+                op = {"op": "dim_derive", "dim": ["d", own], "name": rng.choice(others), "fault": "dup_name"}
+                if rng.random() < 0.5:
+                    op["symbol"] = self.fresh_name().upper()[:3]
+                self.emit(op)
+                return
         fault = rng.choice(["none", "none", "dup_name"])
         (a, ma), (b, mb) = self.any_dim(), self.any_dim()
         n = rng.choice([3, 4, 5, -3, -4])
@@ -634,6 +654,36 @@ class GenA:
         law = rng.choice(["pow_add", "pow_mul", "root", "root", "div", "inv", "comm", "assoc", "neutral",
                           "prefix_pow", "prefix_root", "dim_laws", "prefixed_unit", "prefix_only"])
         a, b = self.small_int(-3, 3), self.small_int(-3, 3)
+        if self.prop == "C02" and rng.random() < 0.08:
+            # F1: the same power asked with a float exponent first (refused or not, it must not
+            # change what the integer expressions evaluate to afterwards)
+            n = rng.choice([2, 3, 4, 5, 7, -2, -3])
+            if rng.random() < 0.7:
+                self.emit({"op": "pow_float", "kind": "unit", "a": x, "n": n})
+                r1 = self._u({"op": "u_pow", "a": x, "n": n}, M.u_pow(mx, n))
+                if r1:
+                    self._u({"op": "u_root", "a": r1, "n": n}, mx)
+            else:
+                d, md = self.any_dim()
+                self.emit({"op": "pow_float", "kind": "dim", "a": d, "n": n})
+                r1 = self.emit({"op": "d_pow", "a": d, "n": n})
+                r2 = self.emit({"op": "d_root", "a": r1, "n": n})
+                self.dims += [(r1, M.d_pow(md, n)), (r2, md)]
+            return
+        if self.prop == "C02" and rng.random() < 0.06 and len(mx[1]) == 1 and not mx[0]:
+            # scales far outside the range of a float: 10**-330 and 10**-360 are different
+            # prefixes (both would be 0.0 as floats), over the same factors
+            step = rng.choice([-30, -27, 30])
+            n = rng.choice([11, 12, 13])
+            p = self.emit({"op": "prefix_new", "base": 10, "exp": step})
+            mp = M.p_norm([(10, step)])
+            r0 = self.emit({"op": "p_mul_u", "p": p, "u": x})
+            r1 = self.emit({"op": "u_pow", "a": r0, "n": n})
+            r2 = self.emit({"op": "u_pow", "a": r0, "n": n + 1})
+            r3 = self.emit({"op": "u_div", "a": r2, "b": x})
+            r4 = self.emit({"op": "u_div", "a": r3, "b": r1})
+            r5 = self.emit({"op": "u_mul", "a": r1, "b": r0})
+            return
         if law == "pow_add":
             r1 = self._u({"op": "u_pow", "a": x, "n": a}, M.u_pow(mx, a))
             r2 = self._u({"op": "u_pow", "a": x, "n": b}, M.u_pow(mx, b))
